@@ -1,5 +1,5 @@
 """Correspondence for the source-to-Lean translator (gen/py2lean.py) and its run-time library (lean/Asn1/PyLite.lean):
-the *translation* of a function (driver ops KTAG, KLEN, KTOBYTES, KOIDENC, KOIDDEC, KTIME, KREAL, KREALDEC, KDECLEN, KDECTAG, KOCTCHUNK, KSETOF, KCERBOOLENC, KBERBOOLENC, KINTENC, KWREAD, KWMARK, KREADTURN, KEOSTURN, PYBIO, KCRANGE, KCSIZE, KCSINGLE, KCALPHA, KCERBOOL, KWRAP, KINTDEC, KBITSDEC, KBITSFROM, KNULLDEC, KBERBOOLDEC, KREQSEEN, KSEQOFIDX; PYFROMBYTES) and the function itself in /repo are
+the *translation* of a function (driver ops KTAG, KLEN, KTOBYTES, KOIDENC, KOIDDEC, KTIME, KREAL, KREALDEC, KDECLEN, KDECTAG, KOCTCHUNK, KSETOF, KCERBOOLENC, KBERBOOLENC, KINTENC, KWREAD, KWMARK, KREADTURN, KEOSTURN, PYBIO, KCRANGE, KCSIZE, KCSINGLE, KCALPHA, KCERBOOL, KWRAP, KINTDEC, KBITSDEC, KBITSFROM, KNULLDEC, KBERBOOLDEC, KREQSEEN, KSEQOFIDX, KANYCAP; PYFROMBYTES) and the function itself in /repo are
 run on the same arguments; the Python builtins PyLite transcribes (PYOP) are compared with CPython.
 
 A disagreement means the translator or PyLite misrepresents the code (machinery fault to repair) - it is reported as a
@@ -47,7 +47,7 @@ def _py(f, *a, **kw):
     return ('ok', r)
 
 
-def check(rep, drv, seed, n=400, which=('encodeTag', 'encodeLength', 'toBytes', 'oidEncode', 'oidDecode', 'timeCanon', 'realBin', 'realDec', 'decodeLength', 'cerBool', 'wrapTags', 'intDecode', 'decodeTag', 'octetChunks', 'constraintLeaves', 'setOfSort', 'streamWrapper', 'readTurn', 'bitsDecode', 'nullDecode', 'berBoolDec', 'requiredSeen', 'seqOfIdx')):
+def check(rep, drv, seed, n=400, which=('encodeTag', 'encodeLength', 'toBytes', 'oidEncode', 'oidDecode', 'timeCanon', 'realBin', 'realDec', 'decodeLength', 'cerBool', 'wrapTags', 'intDecode', 'decodeTag', 'octetChunks', 'constraintLeaves', 'setOfSort', 'streamWrapper', 'readTurn', 'bitsDecode', 'nullDecode', 'berBoolDec', 'requiredSeen', 'seqOfIdx', 'anyCapture')):
     """returns number of cases compared"""
     from pyasn1.codec.ber import encoder as benc, decoder as bdec
     from pyasn1.compat import integer
@@ -877,6 +877,47 @@ def check(rep, drv, seed, n=400, which=('encodeTag', 'encodeLength', 'toBytes', 
                             hit.append(k)
                     return hit[:1]
                 cmp_('seqOfSetIdx', 'KSEQOFIDX set %d %d' % (size, idx), _py(real_set))
+    if 'anyCapture' in which:
+        import io as _io7
+        from pyasn1 import error as _err7
+
+        class CapA(Exception):
+            pass
+        adec = bdec.AnyPayloadDecoder()
+
+        def capture_a(asn1Spec, tagSet, value, **options):
+            raise CapA(value)
+        adec._createComponent = capture_a
+        tagged_spec = univ.Any().subtype(implicitTag=ptag.Tag(ptag.tagClassContext, ptag.tagFormatSimple, 4))
+        for i in range(min(n, 150)):
+            pre = bytes(rng.randrange(256) for _ in range(rng.choice([0, 0, 1, 3, 9])))
+            hdr = bytes(rng.randrange(256) for _ in range(rng.choice([2, 2, 3, 4])))
+            content = bytes(rng.randrange(256) for _ in range(rng.choice([0, 1, 2, 5, 40])))
+            rest = bytes(rng.randrange(256) for _ in range(rng.choice([0, 0, 2, 7])))
+            unt = rng.random() < 0.6
+            short = rng.random() < 0.15                       # the declared length reaches past the end of the input
+            length = len(content) + (len(rest) + rng.randrange(1, 4) if short else 0)
+            data = pre + hdr + content + rest
+            mark = len(pre) if rng.random() < 0.8 else rng.randrange(0, len(pre) + 1)
+            start = len(pre) + len(hdr)
+
+            def real_a():
+                s_ = _io7.BytesIO(data)
+                s_.markedPosition = mark
+                s_.seek(start)
+                try:
+                    for x in adec.valueDecoder(s_, None if unt else tagged_spec, tagSet=univ.OctetString.tagSet if unt else tagged_spec.tagSet,
+                                               length=length):
+                        if isinstance(x, _err7.SubstrateUnderrunError):
+                            raise _err7.SubstrateUnderrunError('underrun')
+                except CapA as c:
+                    return list(bytes(c.args[0])) + [s_.tell()]
+                except _err7.SubstrateUnderrunError:
+                    # on a complete in-memory input readFromStream raises EndOfStreamError, a SubstrateUnderrunError: the class
+                    # Py.readN stands for
+                    raise _err7.SubstrateUnderrunError('underrun')
+                return ['no-value']
+            cmp_('anyCapture', 'KANYCAP %d %d %d %d %s' % (mark, start, unt, length, ' '.join(str(b) for b in data)), _py(real_a))
     rep.count('kernel_correspondence', done)
     return done + nonlocal_done[0]
 
